@@ -18,7 +18,7 @@ T_PROOF = "Lean 4 theorem (induction / refinement over the model) + model-vs-imp
 CLAIMED = {
  "C01": ("proof", "history_refines: for every finite history the tree machine (Go's recursiveSet/recursiveRemove/balance/get/has/getByIndex/range walk) answers exactly as the versioned map - proved by induction over operations for any lawful key order; the model is tied to /repo by running the compiled model and the real library on generated and corpus histories over the option grid (cache, fast index, flush threshold, backend, initial version) and comparing every answer", "5.C01", T_PROOF),
  "C02": ("proof", "the canonical hash is the model's hashNode over the version machine's trees (independent implementation incl. SHA-256 written in Lean); proved: working hash = commit hash, persisted hash independent of query version, reads preserve state; every hash the library returns (commit, working, per retained version, after reopen/prune/rollback/import) is compared byte for byte", "5.C02", T_PROOF),
- "C03": ("proof", "proved for an arbitrary 32-byte hash: generated existence proofs compute the root hash for every tree and key, are complete for present keys, and are sound modulo an explicit hash collision; an executable model of the ics23 verifier (ExistenceProof.Verify, NonExistenceProof.Verify, CheckAgainstSpec, validateIavlOps, IsLeftMost/IsRightMost/IsLeftNeighbor for IavlSpec) is proved sound for non-membership (an accepted non-existence proof against the root of an ordered tree shows an absent key, or a collision) and excludes the opposite claim; the verifier model is compared with the real ics23 verifier on every proof the library produced, genuine and mutated (about 60000 verdicts per quick run); generated proof bytes and the real verifier's verdicts are compared on every history", "5.C03", T_PROOF),
+ "C03": ("proof", "proved for an arbitrary 32-byte hash: generated existence proofs compute the root hash for every tree and key, are complete for present keys, and are sound modulo an explicit hash collision; an executable model of the ics23 verifier (ExistenceProof.Verify, NonExistenceProof.Verify, CheckAgainstSpec, validateIavlOps, IsLeftMost/IsRightMost/IsLeftNeighbor for IavlSpec) is proved sound for non-membership (an accepted non-existence proof against the root of an ordered tree shows an absent key, or a collision) and excludes the opposite claim; completeness is proved too (the existence proof of every stored pair and the non-existence proof built for every absent key are accepted by the verifier model, for ordered AVL trees within the prefix window with non-empty keys and values); the verifier model is compared with the real ics23 verifier on every proof the library produced, genuine and mutated (about 60000 verdicts per quick run); generated proof bytes and the real verifier's verdicts are compared on every history", "5.C03", T_PROOF),
  "C04": ("proof", "version-machine theorems (deletion removes exactly versions <= n, later versions and working state untouched, deleting the latest rejected) + orphans_exact (the two-cursor diff deletes exactly the nodes the next version does not use); the storage machine under small flush thresholds is tied by correspondence over prune-heavy histories incl. raw-store audit", "5.C04", T_PROOF),
  "C05": ("fault_enumeration", "exhaustive enumeration, on the implementation's own recorded write log, of every boundary between two physical writes of every mutating operation: reopen on the image, Load, all versions by tree walk and through the index, retry of the operation; judged against the states before/after. Lean contributes flush_split_same_result / cut_image (splitting a batch never changes the result; a cut image is a prefix image). Multi-batch operations are NOT atomic on the unchanged tree (K7, K7c recorded)", "5.C05", "crash-cut enumeration on the implementation + Lean lemma on batch splitting"),
  "C07": ("proof", "overlay-merge theorems (members and order of the index-plus-uncommitted iterator); index coherence across build / disable / re-enable / older-version loads / rollback is decided by correspondence: every indexed answer (Get, GetVersioned, iterators) against the model of the tree walk, and the raw f-entries + label against the latest version", "5.C07", T_PROOF),
